@@ -35,7 +35,7 @@ Class(f, ps, i, x) ==
 \* parameter configurations: sequences of parameter vectors, in constructor order
 Locs == {<<RZero>>, <<Q(-3, 2)>>, <<Q(-3, 2), R(5), Q(1, 4)>>}
 Scales == {<<ROne>>, <<Q(1, 4)>>, <<R(7), Q(1, 2), R(2)>>}
-Dfs == {<<Q(1, 2)>>, <<R(3)>>, <<R(30), Q(5, 2), ROne>>}
+Dfs == {<<Q(1, 2)>>, <<R(3)>>, <<R(30), Q(5, 2), ROne>>, <<R(400000000)>>}     \* the last: deep in the normal limit
 Params(f) ==
   CASE f \in {"Normal", "LogNormal", "Gumbel", "Cauchy", "Laplace", "Logistic"} -> {<<l, s>> : l \in Locs, s \in Scales}
     [] f = "StudentT" -> {<<d, l, s>> : d \in Dfs, l \in {<<RZero>>, <<Q(-3, 2), R(5), Q(1, 4)>>}, s \in {<<ROne>>, <<R(7), Q(1, 2), R(2)>>}}
